@@ -60,10 +60,12 @@ CLAIMED = {
              'theirs: the token sequences (keys and child pointers) of the nodes touched are rewritten without changing their in-order concatenation, '
              'every moved child is linked back to its new parent at the right position, a new sibling is write-locked and recorded, a modified left '
              'sibling is released by end_write, a split root gets a fresh root and the root pointer is switched, nothing outside the stated frame changes. '
-             'NOT covered: btree::insert itself (descent, in-leaf insertion, locking of the sphere of influence, the end_write/abort_write decisions on '
-             'the leaf and root locks), insert_inner on a full node, hints, concurrent schedules, iteration order, size, chunk partitioning.',
+             '(3) Leaf tail of btree::insert (from the upgrade of the leaf lease to the return, cut out as a fragment): the sphere of influence is write-locked and recorded '
+             'before rebalance_or_split is called, every lock taken is released, the modified leaf and its direct parent are released by end_write, the root lock by end_write whenever the '
+             'root pointer changed, and without a split the key is inserted at idx with the other keys in order. '
+             'NOT covered: the descent of btree::insert (lease validation, search result -> idx), hints, insert_inner on a full node, concurrent schedules beyond the lock specification, iteration order, size, chunk partitioning.',
         note='instantiations Key=int and a two-column key; member templates hoisted to free functions and textually instantiated (R7); sortedness used by instantiation '
-             'at the ghost index; node level: finite universe of node objects, lock replaced by its specification, sphere of influence assumed through a ghost flag, '
+             'at the ghost index; node level: finite universe of node objects, lock replaced by its specification, sphere of influence assumed through a ghost flag in the node operations and checked at the call site in the leaf tail (chains of up to three nodes; rebalance_or_split replaced there by a summary of its contract), '
              'composition over the height of the tree argued on paper (DESIGN 8.9); the body of btree::insert is outside CBMC\'s C++ front end',
         technique='CBMC function contracts (DFCC) on extracted C++ templates + loop-invariant/variant hooks with ghost index',
         design='DESIGN.md §3 C25'),
